@@ -457,7 +457,7 @@ def run(chk, p, t):
         "exactness as values, symmetry of lineOfSight as numbers, the Sun-fraction range."
     )
     chk.assumptions += ["getAzimuth returns an angle in [0, 2pi) (wrapAngle2Pi), getElevation in [-pi/2, pi/2]", "mask limits lie in [0, 2pi] (enforced by the az_mask setter)"]
-    for fn in (rule_r1, rule_r2, rule_r3, rule_r4):
+    for fn in (rule_r1, rule_r2, rule_r3, rule_r4, rule_r5):
         rid = "C14.R" + fn.__name__[-1]
         if not chk.wants(rid):
             continue
@@ -466,3 +466,63 @@ def run(chk, p, t):
         except (Undecided, AnchorError) as e:
             rr = chk.rule(rid + ".x", fn.__name__, 0, "-")
             (rr.undecided if isinstance(e, Undecided) else rr.error)(fn.__name__, str(e))
+
+
+def rule_r5(chk, p, t):
+    r = chk.rule(
+        "C14.R5",
+        "visible-Sun fraction case structure",
+        2,
+        "the visible fraction is 1 on the sunward side, 0 when the apparent separation is below |b - a| (umbra), the "
+        "documented circle-overlap formula when it is below a + b, and 1 otherwise, with the apparent radii a, b and "
+        "separation c of Montenbruck 3.85-3.87",
+        "the value of the partial-occultation area",
+    )
+    fn = p.func(f"{SU}.calculateSunVizFraction")
+
+    def one():
+        cfg = cfg_of(fn)
+        tgt, sun = fn.params
+        defs = single_defs(fn.node)
+        exp = {
+            "sat_sun_vector": f"{sun} - {tgt}",
+            "a": "arcsin(Sun.radius / norm(sat_sun_vector))",
+            "b": f"arcsin(Earth.radius / norm({tgt}))",
+            "c": f"arccos(dot(-{tgt}, sat_sun_vector) / (norm({tgt}) * norm(sat_sun_vector)))",
+            "x": "(c ** 2 + a ** 2 - b ** 2) / (2 * c)",
+            "y": "sqrt(a ** 2 - x ** 2)",
+            "A": "a ** 2 * arccos(x / a) + b ** 2 * arccos((c - x) / b) - c * y",
+        }
+        bad = [f"{k} = `{unparse(defs.get(k)) if defs.get(k) is not None else None}`" for k, v in exp.items() if defs.get(k) is None or canon(defs[k]) != canon(ast.parse(v, mode="eval").body)]
+        rets = [n for n in cfg.nodes if n.kind == "return"]
+        # classify returns by their guarding atoms
+        table = []
+        for rt in sorted(rets, key=lambda n: n.lineno):
+            conds = [(unparse(cfg.nodes[cid].ast), lab) for cid, lab in cfg.control_conditions(rt.id) if cfg.nodes[cid].kind == "cond"]
+            table.append((unparse(rt.ast.value), conds))
+        want = [
+            ("1.0", [(f"norm({sun}) >= norm(sat_sun_vector)", True)]),
+            ("0.0", [(f"norm({sun}) >= norm(sat_sun_vector)", False), ("c < abs(b - a)", True)]),
+            ("1.0 - A / (PI * a ** 2)", [(f"norm({sun}) >= norm(sat_sun_vector)", False), ("c < abs(b - a)", False), ("c < abs(a + b)", True)]),
+            ("1.0", [(f"norm({sun}) >= norm(sat_sun_vector)", False), ("c < abs(b - a)", False), ("c < abs(a + b)", False)]),
+        ]
+        if len(table) != len(want):
+            bad.append(f"{len(table)} returns (4 cases expected)")
+        else:
+            for (gv, gc), (wv, wc) in zip(table, want):
+                if canon(ast.parse(gv, mode="eval").body) != canon(ast.parse(wv, mode="eval").body) or sorted(gc) != sorted(wc):
+                    bad.append(f"case `return {gv}` under {gc} (expected `return {wv}` under {wc})")
+        if bad:
+            r.violation(fn.qualname, "sun-fraction:" + ";".join(bad), "calculateSunVizFraction: " + "; ".join(bad), fn.loc())
+        else:
+            r.ok(fn.qualname, "sunward 1 / umbra 0 / partial overlap formula / no occultation 1", fn.loc(), obligations=11)
+
+    r.guard(fn.qualname, one)
+    fl = p.func(f"{SU}.calculateIncidentSolarFlux")
+    rets = _single_return(fl)
+    e = inline_locals(fl, rets[0].value) if rets else None
+    a, b, c = fl.params
+    if e is not None and canon(e) == canon(ast.parse(f"SOLAR_FLUX * {a} * calculateSunVizFraction({b}, {c})", mode="eval").body):
+        r.ok(fl.qualname, "solar flux x cross-section x visible Sun fraction(target, Sun)", fl.loc())
+    else:
+        r.violation(fl.qualname, f"flux:{unparse(e) if e is not None else None}", "the incident solar flux is not SOLAR_FLUX * area * calculateSunVizFraction(target, Sun)", fl.loc())
